@@ -10,8 +10,13 @@ R3  automatic mapping / replacement substitutes an alias only from find_by_topic
 R4  receive side: empty topic => lookup in the receive table or TopicAliasInvalid; topic + alias => range
     check dominates insert_or_update; a TopicAliasInvalid exit never delivers.
 R5  alias tables are created only from a non-zero Topic Alias Maximum in the four handshake handlers.
+R6  the send table's two indexes agree (alias -> topic, topic -> aliases): registering writes both; rebinding an alias
+    whose old binding is found removes it from the old topic's list; no search in the alias tables assumes an order
+    (binary_search / partition_point) that the writers - which append in registration order - do not maintain.
 """
 import conn
+import explore
+import facts as factsmod
 
 TAS = "mqtt::packet::topic_alias_send::TopicAliasSend::"
 TAR = "mqtt::packet::topic_alias_recv::TopicAliasRecv::"
@@ -209,4 +214,107 @@ def check(run, F, tier):
             r5.violation(owner, "%s: table creation not reached on any explored path" % owner)
         else:
             r5.ok(owner, {"creation_sites_on_paths": n})
+    check_indexes(run, F)
     conn.prune_path_cache(F)
+
+
+ORDER_ASSUMING = ("binary_search", "binary_search_by", "binary_search_by_key", "partition_point")
+APPENDING = ("push", "extend", "extend_from_slice", "append", "push_back")
+REMOVING = ("retain", "retain_mut", "remove", "swap_remove", "drain", "clear", "pop", "truncate", "extract_if")
+
+
+def order_assumptions(fns):
+    """(searches, appends) among the callees of the given function facts: calls that assume a sorted sequence, calls that
+    append in arrival order."""
+    srch, app = [], []
+    for f in fns:
+        for c in sorted(factsmod.fn_refs(f)):
+            nm = c.split("::")[-1]
+            if nm in ORDER_ASSUMING and ("slice" in c or "Vec" in c or "VecDeque" in c):
+                srch.append((f["path"], c))
+            if nm in APPENDING and ("Vec" in c or "VecDeque" in c):
+                app.append((f["path"], c))
+    return srch, app
+
+
+def check_indexes(run, F):
+    r6 = run.rule("C13-R6", "the send alias table keeps alias->topic and topic->aliases in agreement; no unmaintained ordering assumption", floor=3)
+    # self-test of the ordering scan (its expected count on the tree is zero): a body that searches and one that appends
+    fake = [{"path": "t::search", "blocks": [{"term": {"func": {"const": {"fn": {"path": "std::slice::<impl [T]>::binary_search"}}}}}]},
+            {"path": "t::add", "blocks": [{"term": {"func": {"const": {"fn": {"path": "std::vec::Vec::<T, A>::push"}}}}}]}]
+    s_, a_ = order_assumptions(fake)
+    if len(s_) != 1 or len(a_) != 1:
+        run.fail_closed("C13-R6 self-test: the ordering scan does not recognise its positive example")
+        return
+    tab = [f for f in F.fns.values() if f.get("file", "").endswith(("packet/topic_alias_send.rs", "packet/topic_alias_recv.rs"))]
+    if not tab:
+        r6.violation("anchor", "no function of the alias tables found (anchor lost)")
+        return
+    srch, app = order_assumptions(tab)
+    if srch and app:
+        r6.violation("ordering", "%s searches with %s, which assumes a sorted sequence, but the alias tables' lists are filled in registration order (%s in %s): "
+                     "an entry can be missed" % (srch[0][0].split("::")[-1], srch[0][1].split("::")[-1], app[0][1].split("::")[-1], app[0][0].split("::")[-1]))
+    else:
+        r6.ok("ordering", {"functions_scanned": len(tab), "order_assuming_searches": len(srch)})
+    adt = F.adts.get(TAS[:-2])
+    flds = adt["variants"][0]["fields"] if adt else []
+    maps = [f for f in flds if "Map<" in f["ty"]]
+    rev = [f for f in maps if "Vec<" in f["ty"]]
+    fwd = [f for f in maps if "Vec<" not in f["ty"]]
+    iou = F.fns.get(TAS + "insert_or_update")
+    if iou is None:
+        r6.violation("anchor", "TopicAliasSend::insert_or_update not found (anchor lost)")
+        return
+    if len(rev) != 1 or len(fwd) != 1:
+        r6.ok("single-index", "TopicAliasSend holds %d map(s), no reverse index with alias lists: nothing to keep in agreement" % len(maps))
+        r6.ok("rebinding", "n/a")
+        return
+    fwd, rev = fwd[0]["name"], rev[0]["name"]
+    ex = explore.Explorer(F, inline_pred=lambda e, c, i: c.get("kind") == "Closure" or explore.small_private_helper(c))
+    ps = [p for p in ex.run(iou["path"]) if p.kind == "return"]
+    expand = lambda t: conn.expand_all(ex.interned_rev, t)
+    n_reb = n_reg = 0
+    bad_reb = bad_reg = None
+    for p in ps:
+        both = {"fwd": False, "rev": False}
+        found_old = found_list = False
+        removed = False
+        for e in p.effects:
+            if e[0] != "call":
+                continue
+            nm = e[1].split("::")[-1]
+            a0 = repr(expand(e[3][0])) if e[3] else ""
+            on_fwd, on_rev = ("'%s'" % fwd) in a0, ("'%s'" % rev) in a0
+            if on_fwd and nm in ("insert", "insert_full", "entry"):
+                both["fwd"] = True
+            if on_rev and nm in ("insert", "entry") or (nm in APPENDING and ("'%s'" % rev) in a0):
+                both["rev"] = True
+            if on_fwd and nm in ("shift_remove", "swap_remove", "remove", "shift_remove_entry", "swap_remove_entry") and e[4][0] == "sym" \
+                    and conn.possible(F, p, e[4][1], "std::option::Option") == {"Some"}:
+                found_old = True
+            if on_rev and nm in ("get_mut", "get") and "Map" in e[1] and e[4][0] == "sym" and conn.possible(F, p, e[4][1], "std::option::Option") == {"Some"}:
+                found_list = True
+            elif on_rev and nm == "entry" and e[4][0] == "sym" and found_old and \
+                    any(k[0] == "discr" and k[1] == e[4][1] and "Entry" in str(k[2]) and c == ("eq", 0) for k, c in p.cons.items() if len(k) > 2):
+                found_list = True       # `if let Entry::Occupied(slot) = rev.entry(old_topic)` (Occupied is variant 0 of every map's Entry)
+            elif found_list and on_rev and nm in REMOVING:
+                removed = True          # a removing method applied to the list the look-up returned (or to its map entry)
+        n_reg += 1
+        if not (both["fwd"] and both["rev"]):
+            bad_reg = p
+        if found_old and found_list:
+            n_reb += 1
+            if not removed:
+                bad_reb = p
+    if n_reg == 0 or bad_reg is not None:
+        r6.violation("registration", "insert_or_update returns on a path that does not record the binding in both %s and %s" % (fwd, rev),
+                     conn.path_summary(bad_reg) if bad_reg else None, site="%s:%s" % (iou["file"], iou["line"]))
+    else:
+        r6.ok("registration", {"paths": n_reg})
+    if n_reb == 0:
+        r6.violation("rebinding", "no path of insert_or_update finds an old binding and the old topic's alias list (anchor lost)")
+    elif bad_reb is not None:
+        r6.violation("rebinding", "insert_or_update: an alias whose old binding is found in %s is not removed from the old topic's list in %s "
+                     "(find_by_topic then still offers it for the old topic)" % (fwd, rev), conn.path_summary(bad_reb), site="%s:%s" % (iou["file"], iou["line"]))
+    else:
+        r6.ok("rebinding", {"paths": n_reb})
